@@ -356,6 +356,11 @@ func contractHasQuantifier(con *Contract) bool {
 	if has(con.Requires) || has(con.Ensures) || has(con.Asserts) || has(con.Checks) {
 		return true
 	}
+	for _, cs := range con.CallSites {
+		if has([]*Clause{cs.Clause}) {
+			return true
+		}
+	}
 	for _, l := range con.Loops {
 		if has(l.Invariants) {
 			return true
